@@ -170,9 +170,10 @@ def token_language(pattern):
             raise Unsupported('boundary marker inside a sequence')
         return [(('seq', items), lead, trail)]
     for core, lead, trail in strip(ast, False, False):
-        if not lead:
-            raise Unsupported('alternative without a leading boundary')
         r = to_z3(core, p.ci)
+        if not lead:
+            # nothing anchors the start of this alternative: it also matches inside a longer token
+            r = z3.Concat(z3.Star(z3.Range('!', '~')), r)
         if not trail:
             r = z3.Concat(r, z3.Star(z3.Range('!', '~')))
         alts.append(r)
